@@ -59,5 +59,21 @@ Enc(i) ==
     [] i.op = "ebreak" -> <<115, 16>>
     [] OTHER -> <<>>
 
+-----------------------------------------------------------------------------
+(* RV64I additions that only exist in the 64-bit variant (manual, chapter 5): the word forms.  Their shift amount   *)
+(* is 5 bits wide (bit 25 belongs to funct7), their immediates 12 bits.                                            *)
+OpRW  == [addw |-> <<0, 0>>, subw |-> <<32, 0>>, sllw |-> <<0, 1>>, srlw |-> <<0, 5>>, sraw |-> <<32, 5>>]
+OpShW == [slliw |-> <<0, 1>>, srliw |-> <<0, 5>>, sraiw |-> <<32, 5>>]
+OpL64 == [lwu |-> 6, ld |-> 3]
+Enc64(i) ==
+  CASE i.op \in DOMAIN OpRW  -> R(OpRW[i.op][1], i.rs2, i.rs1, OpRW[i.op][2], i.rd, 59)
+    [] i.op \in DOMAIN OpShW -> IF i.imm >= 0 /\ i.imm < 32 THEN R(OpShW[i.op][1], i.imm, i.rs1, OpShW[i.op][2], i.rd, 27) ELSE <<>>
+    [] i.op = "addiw" -> IF InRange(i.imm, 12) THEN I(TC(i.imm, 12), i.rs1, 0, i.rd, 27) ELSE <<>>
+    [] i.op \in DOMAIN OpL64 -> IF InRange(i.imm, 12) THEN I(TC(i.imm, 12), i.rs1, OpL64[i.op], i.rd, 3) ELSE <<>>
+    [] i.op = "sd" -> IF InRange(i.imm, 12) THEN S(TC(i.imm, 12), i.rs2, i.rs1, 3, 35) ELSE <<>>
+    [] OTHER -> <<>>
+Is64(i) == i.op \in DOMAIN OpRW \cup DOMAIN OpShW \cup DOMAIN OpL64 \cup {"addiw", "sd"}
+EncAny(i) == IF Is64(i) THEN Enc64(i) ELSE Enc(i)
+
 BytesOfWord(w) == <<w[1] % 256, w[1] \div 256, w[2] % 256, w[2] \div 256>>
 =============================================================================
